@@ -122,7 +122,7 @@ def run(ctx, build, verdict, ev):
     import fuzzylite as fl
 
     lits, index, stats, nviol, distinct = run_cases(
-        ctx, verdict, fl, n_engines=ctx.n(60, 5000), n_rows=ctx.n(5, 10),
+        ctx, verdict, fl, n_engines=ctx.n(400, 6000), n_rows=ctx.n(5, 10),
         profiles=["algebraic", "algebraic", "mixed"], activations=ALL_ACTIVATIONS, weighted=True)
     bad, log = ([], "") if build.translation_errors else vlib.run_coq_cases(ctx.work, "c01", IMPORTS, [(CASE_TYPE, CHECKER, lits)], chunk=ctx.n(60, 100))
     mism = []
